@@ -76,7 +76,7 @@ CLAIMED = {
         technique=T_GENERIC),
     "C16": dict(engine="rev", ref="6/C16",
         text="full_id (a full revision id resolves to that revision), plain_sound (a plain identifier resolves to a revision only if it is a key of the map for it - its id or a label it carries - or a prefix of its id and of no other id of >=4 characters), prefix_unique_partial (the documented unique-prefix rule when all ids have >=4 characters) next to the kernel-checked counterexample for shorter ids (known finding F13), symbolic_heads/base; the label-prefix defect F10 is repaired in /repo. Every prefix of every id and label, every label@x combination and offsets up to 3 are resolved through the real RevisionMap and compared with the model; relative and branch-qualified results are judged by Lean oracles (exact distance, branch membership, documented meaning of head/heads/base). Also walk_up_exact / walk_down_exact and walk_up_history / walk_down_history (a relative walk that returns a revision returns one exactly N down_revision links, as written in the files, away), stepsDown_iff, load_ids_legal.",
-        note="relative and branch-qualified targets end to end: C16.rel_up_id / rel_up_row / rel_up_empty / rel_down_id / rel_dgrade_id / rel_dgrade_row (rev+N, +N from the single row, rev-N, bare -N: exactly N down_revision links as written in the files, base only at distance N-1 from a root, -N restricted to the row's branch) and C16.branch_head / branch_head_ambiguous / branch_heads (<label or id>@head = the single head sharing the branch's lineage, several are refused; <label or id>@heads = exactly the heads sharing it) for every target the pattern model matchRelative splits that way; label@+N / label@-N (start at the branch tip: Spec.Rev.relUpStarts), +N with several rows and the regular expression itself are compared and judged by oracles only; get_revisions('-N') is modelled for the plain ASCII spelling of the number.",
+        note="relative and branch-qualified targets end to end: C16.rel_up_id / rel_up_row / rel_up_empty / rel_up_empty_label / rel_down_id / rel_dgrade_id / rel_dgrade_row (rev+N, +N from the single row, rev-N, bare -N: exactly N down_revision links as written in the files, base only at distance N-1 from a root, -N restricted to the row's branch) and C16.branch_head / branch_head_ambiguous / branch_heads (<label or id>@head = the single head sharing the branch's lineage, several are refused; <label or id>@heads = exactly the heads sharing it) for every target the pattern model matchRelative splits that way; label@+N / label@-N (start at the branch tip: Spec.Rev.relUpStarts), +N with several rows and the regular expression itself are compared and judged by oracles only; get_revisions('-N') is modelled for the plain ASCII spelling of the number.",
         technique=T_GENERIC),
     "C17": dict(engine="gen", ref="6/C17",
         text="repr_roundtrip / repr_file (the four identifier assignments of script.py.mako decode to the requested values for ALL strings and tuples), incremental (for every well-formed history that loads and every accepted new revision, add_revision succeeds, the extended history loads, and the incrementally updated map equals the reloaded map in the FULL view incl. branch labels - the label defect F5 is repaired in /repo), filename_suffix/accepted; counterexamples for the unescaped docstring (F12) and a '.#' id are kernel-checked and recorded. After every real generate_revision/command.revision/command.merge call the incremental ScriptDirectory is compared with a fresh one and with the model.",
